@@ -40,19 +40,20 @@ type Event struct {
 
 // Env is the concurrency / time state of one path.
 type Env struct {
-	gs       []*G
-	cur      *G
-	abort    *pathEnd
-	killing  bool
-	ack      chan struct{}
-	now      *Term
-	events   []*Event
-	locks    map[string]bool
-	pools    map[string][]Value
-	poolPriv map[string]Value
-	wgs      map[string]int
-	explore  bool // explore scheduling choices
-	switches int
+	gs            []*G
+	cur           *G
+	abort         *pathEnd
+	killing       bool
+	ack           chan struct{}
+	now           *Term
+	events        []*Event
+	locks         map[string]bool
+	pools         map[string][]Value
+	poolPriv      map[string]Value
+	wgs           map[string]int
+	explore       bool // explore scheduling choices
+	exploreAtomic bool // ... also at the end of atomic operations
+	switches      int
 }
 
 func (e *Exec) envInit() {
